@@ -13,6 +13,8 @@ LIFECYCLE_CAS = {
     ("RxBusy", "RxDone"), ("RxDone", "RxProcessing"), ("RxProcessing", "None"),
     # the transmit side lets go: sent, or (send failed) ready again - only if the slot is still its own
     ("Sending", "Sent"), ("Sending", "Sendable"),
+    # the receive side hands back a slot it claimed for a response that turned out not to be this slot's
+    ("RxBusy", "Sent"),
 }
 # transitions that grant a new party access to the buffer: must be compare-exchange
 GRANTING_TO = {"Created", "Sending", "RxBusy", "RxProcessing"}
@@ -27,6 +29,7 @@ EXPECTED_CAS = {
     ("<CreatedFrame as Drop>::drop", "Created", "None"),
     ("SendableFrame::mark_sent", "Sending", "Sent"),
     ("SendableFrame::release_sending_claim", "Sending", "Sendable"),
+    ("ReceivingFrame::release_receiving_claim", "RxBusy", "Sent"),
 }
 EXPECTED_STORES = {
     ("CreatedFrame::mark_sendable", "Sendable"): "publish by the sole holder (Created has no other party)",
@@ -371,6 +374,48 @@ def s4(prog, rep, P, tag="", parts=("mark_sendable", "receive_frame", "mark_rece
             ok = c1 and c2 and c3 and c4 and c5 and c6
             d = "claim-ok-dominates=%s copy-before-mark=%s no-write-after-mark=%s dst-is-claimed-buf=%s/%s index-from-lookup=%s" % (c1, c2, c3, c4, c5, c6)
         rep.ob(P + ".S4", "receive_frame:lookup-claim-copy-mark" + tag, ok, "every path to Processed goes lookup -> claim(index) -> copy into the claimed buffer -> mark_received; " + d, loc=b.span)
+        # lookup and claim are two steps: the slot found for this index can be given up and re-used for
+        # another request in between.  Once claimed (RxBusy: nobody else changes the marker) the marker must
+        # be checked again, against the same index, before anything is copied; a claim that turns out to be
+        # wrong is handed back by compare-exchange (RxBusy -> Sent), not dropped.
+        rv = None
+        if len(claim) == 1 and len(cp) == 1:
+            prv = Prov(b)
+            lk = b.calls_to("PduStorageRef::frame_index_by_first_pdu_index")
+            for cd in q.conds(b):
+                if cd.kind != "call" or cd.call is None or cd.call.bb not in b.reachable_strict(claim[0].bb):
+                    continue
+                c = cd.call
+                t = prog.by_path.get(c.res) or prog.by_path.get(c.decl)
+                # a marker test: reaches FrameElement::first_pdu_is on the claimed frame with the looked-up index
+                reach = False
+                if c.is_("FrameElement::first_pdu_is"):
+                    reach = True
+                elif t is not None:
+                    reach = any(x.calls_to("FrameElement::first_pdu_is") for x in prog.callees_closure([t], depth=3))
+                if not reach or len(c.args) < 2:
+                    continue
+                same_idx = bool(lk) and prv.of_operand(c.args[1]) == prv.of_operand(lk[0].args[1])
+                on_claimed = has_root(prv.of_operand(c.args[0]), "call", "PduStorageRef::claim_receiving")
+                if same_idx and on_claimed:
+                    rv = (cd, c)
+        okr = False
+        dr = {}
+        if rv is not None:
+            cd, c = rv
+            yes = q.edge_dominated(b, cd.bb, cd.true_target())
+            no = q.edge_dominated(b, cd.bb, cd.false_target())
+            dr["copy-only-if-marker-still-matches"] = cp[0].bb in yes and all(x.bb in yes for x in mr)
+            sites = [s_ for s_ in transitions(prog)[0] if s_["kind"] == "cas" and s_["frm"] == "RxBusy" and s_["to"] == "Sent"]
+            giveback = set()
+            for s_ in sites:
+                for cc in b.calls():
+                    tt = prog.by_path.get(cc.res) or prog.by_path.get(cc.decl)
+                    if tt is not None and tt.root == s_["body"].root:
+                        giveback.add(cc.bb)
+            dr["wrong-claim-handed-back"] = bool(giveback) and all(g in no for g in giveback) and not any(x[0] in no for x in q.aggregates(b, "ReceiveAction", "Processed"))
+            okr = all(dr.values())
+        rep.ob(P + ".S4", "receive_frame:marker-revalidated-after-claim" + tag, okr, "between lookup and claim the slot can change hands: after the claim the first-datagram marker is compared with the received index again; only then is the response copied, otherwise the claim is handed back (RxBusy -> Sent); %s" % (dr or "no re-validation found"), loc=b.span)
         # no slot write before the claim: the only FrameBox/FrameElement writers reachable from receive_frame
         wr = [c for c in b.calls() if c.is_("FrameBox::pdu_buf_mut", "FrameBox::init", "FrameBox::add_pdu", "FrameBox::set_state", "FrameElement::set_state")]
         rep.ob(P + ".S4", "receive_frame:no-direct-slot-write" + tag, not wr, "receive_frame touches slots only through the claimed ReceivingFrame", loc=b.span, how="inventory", nontrivial=False)
